@@ -55,6 +55,7 @@ func MakeActors() *Actors {
 		sdk.AccAddress{0x00, 0x00, 0x01},                                                    // embedded zero bytes
 		append(sdk.AccAddress{}, p3[:15]...),                                                // p3 without its "stake" tail
 		p19,                                                                                 // 19-byte prefix of the signer provider q
+		bech32Extension(p1),                                                                 // 24 bytes whose bech32 text starts with the whole bech32 text of p1
 	}
 	a.Wallets = []sdk.AccAddress{addr20("wallet1"), addr20("wallet2"), sdk.AccAddress(sha256Sum("wallet32")), sdk.AccAddress(sha256Sum("wallet7")[:7])}
 	a.All20 = append(a.All20, a.Owners...)
@@ -1156,4 +1157,35 @@ func tweakPricing(rng *rand.Rand, text string) string {
 		return ""
 	}
 	return string(out)
+}
+
+// bech32Extension builds an address whose bech32 text has the complete bech32 text of a
+// (data and checksum characters) as a prefix: the 38 five-bit groups of a 20-byte address
+// followed by a zero group regroup into 24 bytes.
+func bech32Extension(a sdk.AccAddress) sdk.AccAddress {
+	const charset = "qpzry9x8gf2tvdw0s3jn54khce6mua7l"
+	txt := a.String()
+	data := txt[strings.LastIndex(txt, "1")+1:]
+	var bits []byte
+	for _, c := range data {
+		v := strings.IndexRune(charset, c)
+		if v < 0 {
+			panic("not a bech32 character")
+		}
+		for i := 4; i >= 0; i-- {
+			bits = append(bits, byte(v>>uint(i))&1)
+		}
+	}
+	bits = append(bits, 0, 0, 0, 0, 0)
+	out := make([]byte, len(bits)/8)
+	for i := range out {
+		for j := 0; j < 8; j++ {
+			out[i] = out[i]<<1 | bits[i*8+j]
+		}
+	}
+	ext := sdk.AccAddress(out)
+	if !strings.HasPrefix(ext.String(), txt) {
+		panic("bech32 extension does not extend " + txt + ": " + ext.String())
+	}
+	return ext
 }
